@@ -6,6 +6,7 @@
 //
 //	n, err := exh.New(exh.Options{N: 4})        // N validators (real Ed25519 + BLS keys), genesis processed, cache prepared
 //	n.ABI.S = &exh.Script{...}                   // scripted answers of the ABI double for the next calls (zero value: all succeed)
+//	n.ABI.Commits / Reverts / AppRoot            // what the "application" has been told to commit / revert so far
 //	b := n.NextValid(exh.Build{})                // VALID successor of the current tip (slot, generator, signature, roots,
 //	                                             // Build{By: v} picks v's next slot; Options.Weights sets unequal BFT weights;
 //	                                             // validatorsHash, maxHeightPrevoted, maxHeightGenerated, eventRoot for n.ABI.S)
@@ -133,6 +134,9 @@ type ABI struct {
 	Genesis  *labi.InitGenesisStateResponse
 	Calls    []string                        // names of the calls received since the last ResetCalls
 	OnInit   func(h *blockchain.BlockHeader) // optional: called at InitStateMachine (start of every block step) before answering
+	Commits  int                             // successful Commit calls (DryRun excluded) so far
+	Reverts  int                             // successful Revert calls so far
+	AppRoot  []byte                          // state root the "application" holds committed (last Commit / Revert target)
 	txCursor int
 }
 
@@ -232,6 +236,10 @@ func (m *ABI) Commit(req *labi.CommitRequest) (*labi.CommitResponse, error) {
 	if m.s().StateRoot != nil && !bytes.Equal(m.s().StateRoot, req.ExpectedStateRoot) {
 		return nil, fmt.Errorf("abi-double: state root mismatch")
 	}
+	if !req.DryRun {
+		m.Commits++
+		m.AppRoot = append([]byte{}, req.ExpectedStateRoot...)
+	}
 	return &labi.CommitResponse{StateRoot: req.ExpectedStateRoot}, nil
 }
 func (m *ABI) Revert(req *labi.RevertRequest) (*labi.RevertResponse, error) {
@@ -239,6 +247,8 @@ func (m *ABI) Revert(req *labi.RevertRequest) (*labi.RevertResponse, error) {
 	if m.s().FailRevert {
 		return nil, errScript
 	}
+	m.Reverts++
+	m.AppRoot = append([]byte{}, req.ExpectedStateRoot...)
 	return &labi.RevertResponse{StateRoot: req.ExpectedStateRoot}, nil
 }
 func (m *ABI) Clear(req *labi.ClearRequest) (*labi.ClearResponse, error) {
@@ -276,13 +286,13 @@ type Options struct {
 	MaxBlockCache int    // default 515
 	KeepEvents    int    // ChainConfig.KeepEventsForHeights (default -1 = keep all); use KeepEventsSet to pass 0
 	KeepEventsSet bool
-	MaxTxLen      uint32 // ChainConfig.MaxTransactionsLength (default 15360)
-	GenesisBack   uint32 // genesis timestamp = now - GenesisBack (default 1_000_000)
-	PreCommit     uint64 // genesis precommit threshold (default 2N/3+1 of total weight)
-	Certificate   uint64 // genesis certificate threshold (default same)
-	FS            vfs.FS // default vfs.NewMem()
-	Dir           string // default "db"
-	GenesisTime   uint32 // if non-zero, fixed genesis timestamp (replays / crash enumeration re-runs)
+	MaxTxLen      uint32   // ChainConfig.MaxTransactionsLength (default 15360)
+	GenesisBack   uint32   // genesis timestamp = now - GenesisBack (default 1_000_000)
+	PreCommit     uint64   // genesis precommit threshold (default 2N/3+1 of total weight)
+	Certificate   uint64   // genesis certificate threshold (default same)
+	FS            vfs.FS   // default vfs.NewMem()
+	Dir           string   // default "db"
+	GenesisTime   uint32   // if non-zero, fixed genesis timestamp (replays / crash enumeration re-runs)
 	Weights       []uint64 // BFT weight per genesis validator (default 1 each); unequal weights give finality jumps
 }
 
